@@ -42,7 +42,8 @@ CLAIMED = {
     'C13': dict(category='other', technique='contracts on the layout-dependent functions; per-shape exhaustive symbolic execution (symx) with one distinct symbol per control point',
                 text='2-D grid view, control point managers, flips, transpose, flip, extract/construct round trips and sweeps all address the same point for the same (u,v,w) on nets '
                      'with pairwise different sizes; round trips return the original shape and evaluate identically. Engine A, every size: managers compute v + size_v*(u + size_u*w), in range and injective; '
-                     'the surface / volume evaluators read the control point that convention puts there (active-hull contracts with index-monotone ghost bounds).',
+                     'the surface / volume evaluators read the control point that convention puts there (active-hull contracts with index-monotone ghost bounds); '
+                     'compatibility.flip_ctrlpts2d is the transpose (result[i][j] = input[j][i] coordinate by coordinate), flip_ctrlpts / flip_ctrlpts_u produce size_u*size_v points and never read outside the net.',
                 note=_B_NOTE),
     'C05': dict(category='other', technique='contracts on helpers.knot_refinement / operations.refine_knotvector; SMT-discharged VCs (pyvc) for the two helpers it calls (find_multiplicity, find_span_linear); per-shape exhaustive symbolic execution (symx)',
                 text='Refinement leaves evaluate_single(u) equal to the spec point of the original definition (identity in symbolic knots, parameter, control points, weights); the new knot vector '
